@@ -159,6 +159,16 @@ fn handle(req: &Value) -> Value {
             let (green, diags) = r.into_parts();
             json!({"diagnostics": diags.iter().map(|d| d.message().to_string()).collect::<Vec<_>>(), "tree": parser::debug_tree(&green)})
         }
+        "query_all" => {
+            // every editor query at every line / column of a small grid around the text (and one far outside): must return normally
+            let src = a[0].as_str().unwrap(); let path = std::path::Path::new("q.gom");
+            let lines = src.split('\n').count() as u32; let mut n = 0u32;
+            for line in 0..lines + 2 { for col in 0..(src.len() as u32 + 3) {
+                let _ = compiler::query::hover_type(path, src, line, col); let _ = compiler::query::dot_completions(path, src, line, col);
+                let _ = compiler::query::colon_colon_completions(path, src, line, col); n += 1; } }
+            let _ = compiler::query::hover_type(path, src, u32::MAX, u32::MAX); let _ = compiler::query::dot_completions(path, src, u32::MAX, u32::MAX);
+            json!({"positions": n})
+        }
         "encode_ty" => json!(compiler::go::mangle::encode_ty(&ty_from_json(&a[0]))),
         _ => json!({"error": format!("unknown fn {f}")}),
     }
